@@ -220,7 +220,7 @@ def _mk_protocol(cls, m, tls, prefix="self."):
     return proto, handler, cfg
 
 
-def _native_check(d, env_fn, call_fn):
+def _native_check(d, env_fn, call_fn, complete=True):
     """Try tls in (False, True): confirmed iff for some variant the clause is natively false (or an
     undeclared exception escapes for a raises obligation)."""
     attempts = []
@@ -253,7 +253,7 @@ def _native_check(d, env_fn, call_fn):
             attempts.append({"tls": tls, "harness_error": traceback.format_exc()[-600:]})
     if any("harness_error" in a for a in attempts):
         return {"confirmed": None, "attempts": attempts}
-    return {"confirmed": False, "attempts": attempts}
+    return {"confirmed": False if complete else None, "attempts": attempts}
 
 
 @realiser("pygopherd/protocols/")
@@ -293,7 +293,8 @@ def r_protocol(d):
             env[n] = a
         return fn(proto, *args)
 
-    return _native_check(d, env_fn, call_fn)
+    # only pure predicates are fully controlled by the model; anything that calls into handlers is not
+    return _native_check(d, env_fn, call_fn, complete=meth in ("canhandlerequest", "__init__", "slashnormalize", "check_tls", "adjustmimetype", "adjust_mimetype"))
 
 
 class _LazyHeaders(dict):
@@ -473,9 +474,119 @@ def r_c01_audit(d):
                 if bad:
                     return {"confirmed": True, "request": repr(rq), "escaping_accesses": bad[:5], "root": root}
                 seen.append((repr(rq)[:60], len(ev)))
-        return {"confirmed": False, "tried": seen[:12]}
+        return {"confirmed": None, "note": "no escaping access observed for the selectors tried", "tried": seen[:12]}
     finally:
         shutil.rmtree(top, ignore_errors=True)
         hb.rootpath = None
         hm.rootpath = None
         hm.handlers = None
+
+
+# ------------------------------------------------------------------- C20 / C03: handle() under injected faults
+class _FaultyW(io.BytesIO):
+    def __init__(self, fail_at, exc):
+        super().__init__()
+        self.n = 0
+        self.fail_at = fail_at
+        self.exc = exc
+
+    def write(self, data):
+        if self.n == self.fail_at:
+            self.n += 1
+            raise self.exc
+        self.n += 1
+        return super().write(data)
+
+    def close(self):
+        pass
+
+
+def _handle_requests(cls):
+    name = cls.__name__
+    sels = ["/testfile.txt", "/nonexistent", "/", "/testarchive.zip"]
+    out = []
+    for s_ in sels:
+        if "Gemini" in name:
+            out.append("gemini://localhost%s\r\n" % s_)
+        elif "Spartan" in name:
+            out.append("localhost %s 0\r\n" % s_)
+        elif "HTTP" in name or "WAP" in name:
+            out.append("GET %s HTTP/1.0\r\n" % s_)
+        elif "Plus" in name:
+            out.extend(["%s\t+\r\n" % s_, "%s\t!\r\n" % s_, "%s\t$\r\n" % s_])
+        else:
+            out.append("%s\r\n" % s_)
+    return out
+
+
+def r_handle_faults(d):
+    """Replay for handle(): drive the real protocol with a client socket that fails at the k-th write with a
+    one-argument timeout or a two-argument EPIPE, and see what leaves handle()."""
+    import errno, socket
+    from pygopherd import testutil, logger
+    import pygopherd.handlers.base as hb
+    import pygopherd.handlers.HandlerMultiplexer as hm
+    mod, cls, meth = _class_of(d["function"])
+    logger.log = lambda m: None
+    findings = []
+    for req in _handle_requests(cls):
+        for mk in (lambda: socket.timeout("timed out"), lambda: BrokenPipeError(errno.EPIPE, "Broken pipe")):
+            for k in range(0, 8):
+                hb.rootpath = None; hm.rootpath = None; hm.handlers = None
+                cfg = testutil.get_config()
+                cfg.set("handlers.ZIP.ZIPHandler", "enabled", "true")
+                tls = getattr(cls, "secure", False)
+                h = testutil.get_testing_handler(io.BytesIO(), io.BytesIO(), cfg, use_tls=tls)
+                injected = mk()
+                w = _FaultyW(k, injected)
+                rfile = io.BytesIO(b"\r\n")
+                proto = cls(req, h.server, h, rfile, w, cfg)
+                try:
+                    proto.canhandlerequest()
+                    proto.handle()
+                    raised = None
+                except BaseException as e:  # noqa
+                    raised = e
+                if raised is None:
+                    continue
+                foreign = not isinstance(raised, OSError)
+                not_injected = isinstance(raised, OSError) and raised is not injected and type(raised) is not type(injected)
+                if (d["kind"] == "raises" and foreign) or (d["kind"] == "on_raise" and (foreign or not_injected)):
+                    return {"confirmed": True, "request": req, "fail_at_write": k, "injected": repr(injected), "escaped": repr(raised)}
+                findings.append((req, k, repr(raised)))
+    return {"confirmed": None, "note": "no foreign exception escaped handle() under the injected faults tried", "seen": findings[:6]}
+
+
+for _mod, _cls in (("base.py", "BaseGopherProtocol"), ("gopherp.py", "GopherPlusProtocol"), ("http.py", "HTTPProtocol"), ("gemini.py", "GeminiProtocol"), ("spartan.py", "SpartanProtocol")):
+    REALISERS.append(("pygopherd/protocols/%s::%s.handle" % (_mod, _cls), r_handle_faults))
+
+
+@realiser("pygopherd/handlers/base.py::VFS_Real.copyto")
+def r_copyto(d):
+    """Copy real files of many sizes (around every multiple of the 4096-byte block) through the real
+    VFS_Real.copyto and compare with the file bytes."""
+    import random, shutil, tempfile
+    import pygopherd.handlers.base as hb
+    top = tempfile.mkdtemp(prefix="pyvc-c04-", dir="/var/tmp")
+    try:
+        cfg = _config({})
+        cfg.set("pygopherd", "root", top)
+        hb.rootpath = None
+        vfs = hb.VFS_Real(cfg)
+        rnd = random.Random(int(os.environ.get("VERIF_SEED", "0") or 0))
+        for n in (0, 1, 2, 4095, 4096, 4097, 8191, 8192, 8193, 12288, 20000):
+            data = bytes(rnd.getrandbits(8) for _ in range(n))
+            with open(os.path.join(top, "f.bin"), "wb") as fh:
+                fh.write(data)
+            out = io.BytesIO(b"PRE")
+            out.seek(0, 2)
+            try:
+                vfs.copyto("/f.bin", out)
+            except Exception as e:  # noqa
+                return {"confirmed": True, "size": n, "raised": repr(e)}
+            if out.getvalue() != b"PRE" + data:
+                return {"confirmed": True, "size": n, "copied_bytes": len(out.getvalue()) - 3, "note": "bytes written differ from the file content"}
+        return {"confirmed": None, "note": "copy exact for all sizes tried"}
+    finally:
+        shutil.rmtree(top, ignore_errors=True)
+        hb.rootpath = None
